@@ -20,6 +20,7 @@ def check(model: Model, report: Report) -> None:
         "L7": "no fixed lexeme beyond the RFC's operators/keywords/punctuation is tokenised; unknown characters and lone '=' are errors",
         "L9": "blank space is not tolerated where the grammar forbids it (after '.', '..', before '$', after the last segment)",
         "GRID": "every sequence of filter tokens (<= 4 quick / 5 thorough) and of bracketed-selection tokens that the RFC grammar or typing rules refuse raises a JSONPathError in the interpreted parser (exhaustive up to the bound)",
+        "L11": "lexer state transitions and bracket / function-call bookkeeping (unbalanced or mismatched brackets are errors; a filter ends exactly at ',' outside a call or at ']')",
         "G": "token shapes outside the grammar (commas, empty segments, slice typestate, operand categories, dangling operators, trailing tokens) raise a JSONPathError",
     }.items():
         report.rule(f"R04.{k}", v)
@@ -28,6 +29,7 @@ def check(model: Model, report: Report) -> None:
     _lexrules.lexical_layer(model, report, "a-only", "R04")
     _lexstates.check_token_tables(model, report, "R04.L7", "a-only")
     _lexstates.check_blank_positions(model, report, "R04.L9", "a-only")
+    _lexstates.check_transitions(model, report, "R04.L11")
     _shapes.check_shapes(model, report, "R04.G", want_valid=False)
     from . import _tokgrid
 
